@@ -275,6 +275,13 @@ def all_designs(tier="quick", seed=0):
                 ds = rnd.sample(ds, cap)
         out += ds
     out += U_rand(300 if tier == "quick" else 12000, seed)
+    # parameter values on about half of the external leaf devices (arrays and pairs included): "the same leaf devices with the same parameters"
+    prnd = random.Random(seed + 5)
+    for fam, D in out:
+        for m in D["mods"].values():
+            for i in m["insts"]:
+                if i["of"]["k"] == "ext" and i["of"]["ref"] in ("L1", "L12", "L3") and prnd.random() < 0.5:
+                    i["pv"] = [["v", prnd.randint(0, 3)]] + ([["w", prnd.randint(1, 9)]] if prnd.random() < 0.3 else [])
     return out
 
 
